@@ -1,5 +1,6 @@
 """E10 small engines: PARITY (symmetry under an exchange), FOLD (constant folding), LINT-IS, SWAP."""
 import ast
+import copy
 import math
 
 from .loader import AnalysisError
@@ -561,3 +562,321 @@ def pad_side(call):
     if zb and not za:
         return "front", mode_t, ast.unparse(a)
     return "both", mode_t, ast.unparse(w)
+
+
+# ---------------------------------------------------------------- symbolic straight-line evaluation
+class _SymFound(Exception):
+    def __init__(self, env):
+        self.env = env
+
+
+def _sym_subst(e, env):
+    class S(ast.NodeTransformer):
+        def visit_Name(self, n):
+            if isinstance(n.ctx, ast.Load) and n.id in env and env[n.id] is not None:
+                return copy.deepcopy(env[n.id])
+            return n
+
+        def visit_Lambda(self, n):
+            return n
+
+    return S().visit(copy.deepcopy(e))
+
+
+def _sym_root(t):
+    while isinstance(t, (ast.Attribute, ast.Subscript, ast.Starred)):
+        t = t.value
+    return t.id if isinstance(t, ast.Name) else None
+
+
+def sym_eval(stmts, env=None, stop=None, opaque=()):
+    """Symbolic value of the plain locals of a statement list, independent of how the computation is spread over statements:
+    names are followed through assignments, augmented assignments become binary operations, tuple assignments are split, an `if`
+    gives `a if test else b` for every name its arms leave different (an arm that returns/raises contributes nothing).  Returns
+    {name: expression node} just before the statement `stop` (by identity, searched in nested ifs as well) or at the end of the list;
+    a name stored in a loop / with / try body, or whose object is mutated through a subscript or attribute store, maps to None
+    (unknown from there on).  Nothing is executed."""
+    env = dict(env or {})
+    env["\0opaque"] = frozenset(opaque)  # names kept as symbols (never replaced by their definitions)
+    try:
+        out = _sym_block(stmts, env, stop)
+    except _SymFound as f:
+        out = f.env
+    out = out if out is not None else env
+    out.pop("\0opaque", None)
+    return out
+
+
+def _sym_kill(node, env):
+    for n in ast.walk(node):
+        if isinstance(n, ast.Name) and isinstance(n.ctx, (ast.Store, ast.Del)):
+            env[n.id] = None
+        elif isinstance(n, (ast.Attribute, ast.Subscript)) and isinstance(n.ctx, (ast.Store, ast.Del)):
+            r = _sym_root(n)
+            if r is not None and r != "self":
+                env[r] = None
+
+
+def _sym_block(stmts, env, stop):
+    """returns the environment at the end of the block, or None when every path through it ended in return / raise"""
+    for s in stmts:
+        if s is stop:
+            raise _SymFound(env)
+        if isinstance(s, (ast.Return, ast.Raise, ast.Continue, ast.Break)):
+            return None
+        if isinstance(s, ast.Assign):
+            val = _sym_subst(s.value, env)
+            for t in s.targets:
+                if isinstance(t, ast.Name):
+                    env[t.id] = None if t.id in env.get("\0opaque", ()) else val
+                elif isinstance(t, (ast.Tuple, ast.List)) and isinstance(val, (ast.Tuple, ast.List)) and len(t.elts) == len(val.elts) \
+                        and all(isinstance(x, ast.Name) for x in t.elts):
+                    for x, v in zip(t.elts, val.elts):
+                        env[x.id] = v
+                else:
+                    _sym_kill(t, env)
+            continue
+        if isinstance(s, ast.AnnAssign) and isinstance(s.target, ast.Name) and s.value is not None:
+            env[s.target.id] = _sym_subst(s.value, env)
+            continue
+        if isinstance(s, ast.AugAssign):
+            if isinstance(s.target, ast.Name) and env.get(s.target.id, 0) is not None:
+                cur = env.get(s.target.id) or ast.Name(s.target.id, ast.Load())
+                env[s.target.id] = ast.BinOp(copy.deepcopy(cur), s.op, _sym_subst(s.value, env))
+            else:
+                _sym_kill(s.target, env)
+            continue
+        if isinstance(s, ast.If):
+            test = _sym_subst(s.test, env)
+            ea, eb = dict(env), dict(env)
+            ra = _sym_block(s.body, ea, stop)
+            rb = _sym_block(s.orelse, eb, stop)
+            if ra is None and rb is None:
+                return None
+            if ra is None:
+                env.clear()
+                env.update(eb)
+                continue
+            if rb is None:
+                env.clear()
+                env.update(ea)
+                continue
+            for k in (set(ea) | set(eb)) - {"\0opaque"}:
+                a, b = ea.get(k, ast.Name(k, ast.Load())), eb.get(k, ast.Name(k, ast.Load()))
+                if a is None or b is None:
+                    env[k] = None
+                elif ast.dump(a) == ast.dump(b):
+                    env[k] = a
+                else:
+                    env[k] = ast.IfExp(copy.deepcopy(test), a, b)
+            continue
+        if isinstance(s, (ast.FunctionDef, ast.ClassDef, ast.Import, ast.ImportFrom, ast.Pass, ast.Global, ast.Nonlocal, ast.Assert)):
+            continue
+        if isinstance(s, ast.Expr):
+            # a call may mutate its receiver (x.append(..)); arguments are taken as not mutated
+            for n in ast.walk(s):
+                if isinstance(n, ast.Call) and isinstance(n.func, ast.Attribute):
+                    r = _sym_root(n.func.value)
+                    if r is not None and r != "self" and r in env:
+                        env[r] = None
+            continue
+        # loops, with, try, match: the statement we look for may be inside; everything stored inside is unknown afterwards
+        _sym_kill(s, env)
+        for blk in ("body", "orelse", "finalbody"):
+            sub = getattr(s, blk, None)
+            if isinstance(sub, list) and stop is not None and any(x is stop for y in sub for x in ast.walk(y)):
+                _sym_block(sub, dict(env), stop)
+    return env
+
+
+def sym_text(e):
+    """canonical text of a symbolic value (None -> '?')"""
+    if e is None:
+        return "?"
+    return " ".join(ast.unparse(ast.fix_missing_locations(copy.deepcopy(e))).split())
+
+
+def sym_value(fn, name, stop=None):
+    """sym_text of local `name` of function `fn` just before statement `stop` (or at the end of the body)"""
+    env = sym_eval(fn.body, stop=stop)
+    return sym_text(env.get(name, ast.Name(name, ast.Load())))
+
+
+def _cond_atoms(test, positive):
+    """a condition as a list of literal texts: `a and b` holding -> [a, b]; `a or b` failing -> [not a, not b]; otherwise one literal"""
+    if isinstance(test, ast.UnaryOp) and isinstance(test.op, ast.Not):
+        return _cond_atoms(test.operand, not positive)
+    if isinstance(test, ast.BoolOp) and ((isinstance(test.op, ast.And) and positive) or (isinstance(test.op, ast.Or) and not positive)):
+        return [a for v in test.values for a in _cond_atoms(v, positive)]
+    t = sym_text(test)
+    return [t if positive else negation_text(t)]
+
+
+def expr_cases(e, conds=()):
+    """[(frozenset of condition literals, text)]: an expression with every conditional sub-expression lifted to the top, i.e.
+    `f(a if c else b)` and `f(a) if c else f(b)` give the same two cases"""
+    out = []
+
+    def split(e, conds):
+        for n in ast.walk(e):
+            if isinstance(n, ast.IfExp):
+                idx = [i for i, x in enumerate(ast.walk(e)) if x is n][0]
+                for pos in (True, False):
+                    e2 = copy.deepcopy(e)
+                    tgt = list(ast.walk(e2))[idx]
+                    rep = tgt.body if pos else tgt.orelse
+                    if tgt is e2:
+                        e2 = rep
+                    else:
+                        for par in ast.walk(e2):
+                            for f, v in ast.iter_fields(par):
+                                if v is tgt:
+                                    setattr(par, f, rep)
+                                elif isinstance(v, list) and any(x is tgt for x in v):
+                                    setattr(par, f, [rep if x is tgt else x for x in v])
+                    split(e2, list(conds) + _cond_atoms(n.test, pos))
+                return
+        out.append((frozenset(conds), sym_text(e)))
+
+    split(e, list(conds))
+    return out
+
+
+def return_cases(fn):
+    """The function as a decision table: [(frozenset of condition literals, text of the returned value)] over all paths, with locals
+    resolved symbolically and conditional expressions inside a returned value (also in callee position) split into cases.  The table
+    does not depend on whether the choice is spelled as nested ifs, early returns, a conditional expression or a local holding the
+    chosen callee.  Raises UnrollError for returns inside loops / try."""
+    out = []
+
+    def split(e, conds):
+        out.extend(expr_cases(e, conds))
+
+    def block(stmts, env, conds):
+        """returns list of (env, conds) for paths that fall off the end"""
+        live = [(env, conds)]
+        for s in stmts:
+            nxt = []
+            for env, conds in live:
+                if isinstance(s, ast.Return):
+                    split(_sym_subst(s.value, env) if s.value is not None else ast.Constant(None), conds)
+                elif isinstance(s, ast.Raise):
+                    pass
+                elif isinstance(s, ast.If):
+                    test = _sym_subst(s.test, env)
+                    nxt += block(s.body, dict(env), conds + _cond_atoms(test, True))
+                    nxt += block(s.orelse, dict(env), conds + _cond_atoms(test, False))
+                elif isinstance(s, (ast.For, ast.While, ast.Try, ast.With)):
+                    if any(isinstance(n, ast.Return) for n in ast.walk(s)):
+                        raise UnrollError("return inside %s" % type(s).__name__)
+                    e2 = dict(env)
+                    _sym_kill(s, e2)
+                    nxt.append((e2, conds))
+                else:
+                    e2 = dict(env)
+                    r = _sym_block([s], e2, None)
+                    if r is not None:
+                        nxt.append((e2, conds))
+            live = nxt
+        return live
+
+    for env, conds in block(fn.body, {}, []):
+        out.append((frozenset(conds), "None"))
+    return sorted(out, key=lambda x: (sorted(x[0]), x[1]))
+
+
+def _sorted_product(e):
+    """text of an expression with the operands of every product sorted (a * b == b * a for the numeric values concerned)"""
+    class P(ast.NodeTransformer):
+        def visit_BinOp(self, n):
+            self.generic_visit(n)
+            if isinstance(n.op, ast.Mult):
+                ops = []
+
+                def flat(x):
+                    if isinstance(x, ast.BinOp) and isinstance(x.op, ast.Mult):
+                        flat(x.left)
+                        flat(x.right)
+                    else:
+                        ops.append(x)
+
+                flat(n)
+                ops.sort(key=ast.unparse)
+                out = ops[0]
+                for x in ops[1:]:
+                    out = ast.BinOp(out, ast.Mult(), x)
+                return out
+            return n
+
+    return sym_text(P().visit(copy.deepcopy(e)))
+
+
+def elementwise_stores(fn, target, arrays):
+    """How the elements of the local array `target` are filled, one entry per store, as (lower index text, upper index text or None,
+    element expression in terms of the index `i`), whether the store is a loop over an index (`for k in range(a, b): T[k] = E(k)`),
+    a slice assignment (`T[a:] = E`, the arrays named in `arrays` are read element by element from 0: X -> X[i - a]) or a single
+    element (`T[c] = E`).  Products are written with sorted operands."""
+    out = []
+
+    def rename(e, old, new):
+        class R(ast.NodeTransformer):
+            def visit_Name(self, n):
+                return ast.Name(new, n.ctx) if n.id == old else n
+
+        return R().visit(copy.deepcopy(e))
+
+    for st in ast.walk(fn):
+        if isinstance(st, ast.For) and isinstance(st.target, ast.Name) and isinstance(st.iter, ast.Call) and getattr(st.iter.func, "id", "") == "range":
+            k = st.target.id
+            a = st.iter.args
+            lo, hi = ("0", ast.unparse(a[0])) if len(a) == 1 else (ast.unparse(a[0]), ast.unparse(a[1]))
+            for s in st.body:
+                if isinstance(s, ast.Assign) and len(s.targets) == 1 and isinstance(s.targets[0], ast.Subscript) and ast.unparse(s.targets[0].value) == target \
+                        and isinstance(s.targets[0].slice, ast.Name) and s.targets[0].slice.id == k:
+                    out.append((lo, hi, _sorted_product(rename(s.value, k, "i"))))
+        elif isinstance(st, ast.Assign) and len(st.targets) == 1 and isinstance(st.targets[0], ast.Subscript) and ast.unparse(st.targets[0].value) == target:
+            sl = st.targets[0].slice
+            if isinstance(sl, ast.Slice) and sl.step is None:
+                lo = ast.unparse(sl.lower) if sl.lower is not None else "0"
+                hi = ast.unparse(sl.upper) if sl.upper is not None else None
+
+                class A(ast.NodeTransformer):
+                    def generic_visit(self, n):
+                        if isinstance(n, ast.expr) and ast.unparse(n) in arrays:
+                            idx = ast.Name("i", ast.Load()) if lo == "0" else ast.BinOp(ast.Name("i", ast.Load()), ast.Sub(), ast.parse(lo, mode="eval").body)
+                            return ast.Subscript(n, idx, ast.Load())
+                        return super().generic_visit(n)
+
+                out.append((lo, hi, _sorted_product(A().visit(copy.deepcopy(st.value)))))
+            elif not isinstance(sl, (ast.Slice, ast.Tuple)):
+                enclosing_loop_vars = {f.target.id for f in ast.walk(fn) if isinstance(f, ast.For) and isinstance(f.target, ast.Name) and any(x is st for x in ast.walk(f))}
+                if not (isinstance(sl, ast.Name) and sl.id in enclosing_loop_vars):
+                    out.append((ast.unparse(sl), ast.unparse(sl), _sorted_product(st.value)))
+    return sorted(out, key=lambda x: (x[0], str(x[1]), x[2]))
+
+
+def monomials(e):
+    """An arithmetic expression expanded into signed monomials: sorted [(sign, numerator factor texts, denominator factor texts)].
+    Sums are flattened, products distributed over sums, a quotient by a single monomial inverted; anything else is one atomic factor.
+    Two spellings of the same polynomial (`w * (a + b)` / `w * a + b * w`) give the same list; a dropped parenthesis does not."""
+    def rec(x):
+        if isinstance(x, ast.BinOp) and isinstance(x.op, (ast.Add, ast.Sub)):
+            r = rec(x.right)
+            if isinstance(x.op, ast.Sub):
+                r = [(-s, n, d) for s, n, d in r]
+            return rec(x.left) + r
+        if isinstance(x, ast.UnaryOp) and isinstance(x.op, ast.USub):
+            return [(-s, n, d) for s, n, d in rec(x.operand)]
+        if isinstance(x, ast.UnaryOp) and isinstance(x.op, ast.UAdd):
+            return rec(x.operand)
+        if isinstance(x, ast.BinOp) and isinstance(x.op, ast.Mult):
+            return [(s1 * s2, n1 + n2, d1 + d2) for s1, n1, d1 in rec(x.left) for s2, n2, d2 in rec(x.right)]
+        if isinstance(x, ast.BinOp) and isinstance(x.op, ast.Div):
+            den = rec(x.right)
+            if len(den) == 1:
+                s2, n2, d2 = den[0]
+                return [(s1 * s2, n1 + d2, d1 + n2) for s1, n1, d1 in rec(x.left)]
+            return [(s1, n1, d1 + [ast.unparse(x.right)]) for s1, n1, d1 in rec(x.left)]
+        return [(1, [ast.unparse(x)], [])]
+
+    return sorted((s, tuple(sorted(n)), tuple(sorted(d))) for s, n, d in rec(e))
